@@ -188,7 +188,7 @@ def trace_to_scenario(lines):
                 s["props"] = props(e["props"])
             steps.append(s)
         elif k == "w":
-            steps.append({"e": "w", "acc": e["acc"]})
+            steps.append({"e": "wzero"} if e["acc"] == 0 and e.get("len", 0) > 0 else {"e": "w", "acc": e["acc"]})
         elif k in ("wpend", "werr", "rpend", "reof", "rerr", "cancel"):
             steps.append({"e": k})
         elif k == "f":
